@@ -26,7 +26,10 @@ type hBundle struct {
 	Copies int  `json:"copies,omitempty"`
 	Frag   bool `json:"frag,omitempty"`    // the bundle is a fragment (offset 100 of 5000 bytes): its ID carries offset and length, the store files it under the scrubbed ID
 	OwnSrc bool `json:"own_src,omitempty"` // received bundles: the source is this node (a bundle of ours that a relay hands back)
+	Short  bool `json:"short,omitempty"`   // lifetime of 1.5 s instead of one hour
 }
+
+const hShortLife = 1500 * time.Millisecond
 
 type hCase struct {
 	Algo    string    `json:"algo"`
@@ -47,6 +50,15 @@ type hBundleState struct {
 	storedAt  time.Time
 	succeeded map[string]bool // peers to which a send succeeded
 	anyOK     bool
+	born      time.Time // the instant the bundle's lifetime counts from
+}
+
+// alive tells whether the bundle's lifetime certainly has not ended yet; over tells whether it certainly has.
+func (st *hBundleState) alive() bool {
+	return !st.plan.Short || time.Since(st.born) < hShortLife-300*time.Millisecond
+}
+func (st *hBundleState) over() bool {
+	return st.plan.Short && time.Since(st.born) > hShortLife+20*time.Millisecond
 }
 
 type hWorld struct {
@@ -114,14 +126,24 @@ func (w *hWorld) build(i int) bpv7.Bundle {
 			src = vfNodeName + fmt.Sprintf("app%d", i)
 		}
 	}
-	bl := bpv7.Builder().CRC(bpv7.CRC32).Source(src).Destination(dest).Lifetime("1h").BundleCtrlFlags(0)
+	life := "1h"
+	if pl.Short && pl.TsKind == 1 {
+		// the shared creation time may lie further back than a short lifetime lasts
+		st.plan.Short, pl.Short = false, false
+	}
+	if pl.Short {
+		life = "1500ms"
+	}
+	bl := bpv7.Builder().CRC(bpv7.CRC32).Source(src).Destination(dest).Lifetime(life).BundleCtrlFlags(0)
+	st.born = time.Now()
 	switch pl.TsKind {
 	case 1:
 		bl = bl.CreationTimestampTime(w.t0)
+		st.born = w.t0
 	case 2:
 		bl = bl.CreationTimestampEpoch().BundleAgeBlock(uint64(0))
 	default:
-		bl = bl.CreationTimestampTime(time.Now())
+		bl = bl.CreationTimestampTime(st.born)
 	}
 	if !pl.Local && st.prevName != "" {
 		bl = bl.PreviousNodeBlock("dtn://" + st.prevName + "/")
@@ -254,6 +276,22 @@ func (w *hWorld) apply(k int, op hOp) bool {
 		w.s.logf("%s", w.step)
 		w.s.setFailAll(n, !op.Flag)
 		return true
+	case "expire":
+		// wait until the lifetime of every short-lived bundle the node holds has ended
+		var until time.Time
+		for _, st := range w.bs {
+			if st.accepted && st.plan.Short && !st.over() {
+				if e := st.born.Add(hShortLife + 40*time.Millisecond); e.After(until) {
+					until = e
+				}
+			}
+		}
+		if until.IsZero() {
+			return false
+		}
+		w.step = fmt.Sprintf("#%d the lifetime of the short-lived bundles ends", k)
+		w.s.logf("%s", w.step)
+		time.Sleep(time.Until(until))
 	case "tick":
 		w.step = fmt.Sprintf("#%d pending-retry tick", k)
 		w.s.logf("%s", w.step)
@@ -282,6 +320,15 @@ func (w *hWorld) pendingPayloads() map[string]bool {
 	for _, bi := range bis {
 		b, err := bi.Parts[0].Load()
 		if err != nil {
+			expired := false
+			for _, st := range w.bs {
+				if st.accepted && st.plan.Short && !st.alive() && st.b.ID().Scrub() == bi.BId.Scrub() {
+					expired = true // a stored bundle whose lifetime has ended is rejected by the parser when it is loaded
+				}
+			}
+			if expired {
+				continue
+			}
 			w.s.failf("c05.store-unreadable", "after %s: pending item %s does not load: %v", w.step, bi.Id, err)
 		}
 		out[string(vfPayloadOf(&b))] = true
@@ -295,9 +342,17 @@ func genHistory(algos []string, maxPeers int, ops []string, maxOps int) *rapid.G
 		if cs.Algo == "spray" || cs.Algo == "binary_spray" {
 			cs.L = rapid.IntRange(1, 8).Draw(t, "L")
 		}
+		withShort := false
+		for _, o := range ops {
+			if o == "expire" {
+				withShort = true
+			}
+		}
 		nb := rapid.IntRange(1, 4).Draw(t, "nbundles")
 		for i := 0; i < nb; i++ {
+			short := withShort && rapid.IntRange(0, 5).Draw(t, "short") == 0
 			cs.Bundles = append(cs.Bundles, hBundle{
+				Short:  short,
 				Local:  rapid.Bool().Draw(t, "local"),
 				Dest:   rapid.IntRange(0, cs.NPeers).Draw(t, "dest"),
 				Prev:   rapid.IntRange(-1, cs.NPeers-1).Draw(t, "prev"),
